@@ -162,11 +162,13 @@ def gen_view_request(rng):
     elif kind == "json-charset":
         body, ct = '{"k": "é"}'.encode("utf-16"), "application/json; charset=utf-16"
     elif kind == "urlenc":
-        body, ct = rng.choice([b"a=1&b=2&a=3", b"x=%E4%B8%AD&y=+", b""]), "application/x-www-form-urlencoded"
+        body, ct = rng.choice([b"a=1&b=2&a=3", b"x=%E4%B8%AD&y=+", b"", "city=Zürich&n=中".encode()]), "application/x-www-form-urlencoded"
     elif kind == "urlenc-charset":
         body, ct = "k=é".encode("utf-8"), rng.choice(["application/x-www-form-urlencoded; charset=utf-8", "application/x-www-form-urlencoded; charset=nonsense"])
     elif kind == "multipart":
         form = MC.gen_form(rng)
+        if rng.random() < 0.5:
+            form["parts"].append({"name": "city", "filename": None, "content": rng.choice(["Zürich", "東京都", "naïve café"]).encode(), "ctype": None, "extra": False})
         body, _ = MC.encode(form)
         ct = MC.content_type_header(form)
     elif kind == "raw":
@@ -176,7 +178,11 @@ def gen_view_request(rng):
     if ct is not None:
         headers.append(("Content-Type", ct))
     n = rng.choice([1, 1, 2, 4])
-    if len(body) > 1 and n > 1:
+    inside = [i for i in range(1, len(body)) if body[i] & 0xC0 == 0x80]  # positions inside a multi-byte UTF-8 character
+    if inside and rng.random() < 0.5:
+        cuts = sorted(set(rng.sample(inside, min(len(inside), rng.randrange(1, 3)))))
+        chunks = [body[a:b] for a, b in zip([0] + cuts, cuts + [len(body)])]
+    elif len(body) > 1 and n > 1:
         cuts = sorted(rng.randrange(0, len(body)) for _ in range(n - 1))
         chunks = [body[a:b] for a, b in zip([0] + cuts, cuts + [len(body)])]
     else:
